@@ -80,7 +80,9 @@ SumB(idx, d, f, t) == LET P == {j \in DOMAIN Toks(idx, d, f) : Toks(idx, d, f)[j
                       IN S(P)
 \* the field boost (in quarters): 2.0 for the field wb of the content worlds, 1.0 elsewhere
 FieldBoost4(f) == IF f = "wb" THEN 8 ELSE 4
-W(idx, d, f, t) == Scale(Scale((SumB(idx, d, f, t) * Unit) \div 4, FieldBoost4(f)), Doc(idx, d).b4)
+\* (... and 1/16 for the field wf: not a whole number of quarters)
+FieldScale(x, f) == IF f = "wf" THEN x \div 16 ELSE Scale(x, FieldBoost4(f))
+W(idx, d, f, t) == Scale(FieldScale((SumB(idx, d, f, t) * Unit) \div 4, f), Doc(idx, d).b4)
 WeightList(idx, f, t) ==
   LET ids == SetToSortSeq({d \in Live(idx) : Tf(idx, d, f, t) > 0}, <)
   IN [i \in DOMAIN ids |-> <<ids[i], W(idx, ids[i], f, t)>>]
